@@ -123,9 +123,20 @@ def run(ctx, rep):
     okc = False
     if len(acc) == 1 and len(acc[0].args) == 6:
         a = acc[0]
+        look_ok = A.src(a.args[0]) == "type(%s)" % cp[1] and A.src(a.args[1]) == cp[3]
+        # the looked-up operator - directly or through a local - is applied to (obj, other)
+        applied = []
         outer = a._parent
-        okc = A.src(a.args[0]) == "type(%s)" % cp[1] and A.src(a.args[1]) == cp[3] and isinstance(outer, ast.Call) and \
-            outer.func is a and [A.src(x) for x in outer.args] == [cp[1], cp[2]]
+        if isinstance(outer, ast.Call) and outer.func is a:
+            applied.append(outer)
+        st = A.enclosing(a, ast.stmt)
+        if isinstance(st, ast.Assign) and st.value is a and isinstance(st.targets[0], ast.Name):
+            v = st.targets[0].id
+            stores = [n for n in A.walk(hc.node) if isinstance(n, ast.Name) and n.id == v and isinstance(n.ctx, ast.Store)]
+            if len(stores) == 1:
+                applied += [c for c in A.calls(hc.node) if isinstance(c.func, ast.Name) and c.func.id == v]
+        okc = look_ok and len(applied) == 1 and [A.src(x) for x in applied[0].args] == [cp[1], cp[2]] and \
+            isinstance(A.enclosing(applied[0], ast.stmt), ast.Return)
     rep.ob("R02.2", "_handle_cmp: looks the operator up on type(obj) through the policy and applies it to (obj, other)", okc,
            "self._access_attr(type(obj), op, ...)(obj, other)" if okc else
            "_handle_cmp no longer applies type(obj).<op> to (obj, other) in that order", hc.loc)
